@@ -8,6 +8,7 @@ mod alloc;
 mod mutate;
 mod objects;
 mod sweeps;
+mod sweeps2;
 
 use std::collections::{BTreeMap, HashSet};
 use std::io;
@@ -199,6 +200,10 @@ fn main() {
     sweeps::run_points(&mut run, &objs);
     sweeps::run_arch(&mut run, &objs);
     sweeps::run_mvk(&mut run, &objs);
+    sweeps2::run_proofs(&mut run, &objs);
+    sweeps2::run_vparams(&mut run, &objs);
+    sweeps2::run_ir(&mut run);
+    sweeps2::run_prover_local(&mut run, &objs);
     let peaks = run
         .peaks
         .iter()
